@@ -47,13 +47,13 @@
 
 // Create an object that can access a record, but don't do anything yet.
 DBObject::DBObject(DB::Connection *connection, ObjectStoreToken *token)
-	: _mutex(MutexFactory::i()->getMutex()), _connection(connection), _token(token), _objectId(0), _transaction(NULL)
+	: _mutex(MutexFactory::i()->getMutex()), _connection(connection), _token(token), _objectId(0), _transaction(NULL), _transactionFailed(false)
 {
 
 }
 
 DBObject::DBObject(DB::Connection *connection, ObjectStoreToken *token, long long objectId)
-	: _mutex(MutexFactory::i()->getMutex()), _connection(connection), _token(token), _objectId(objectId), _transaction(NULL)
+	: _mutex(MutexFactory::i()->getMutex()), _connection(connection), _token(token), _objectId(objectId), _transaction(NULL), _transactionFailed(false)
 {
 }
 
@@ -1208,6 +1208,7 @@ bool DBObject::setAttribute(CK_ATTRIBUTE_TYPE type, const OSAttribute& attribute
 			if (!_connection->execute(statement))
 			{
 				ERROR_MSG("Failed to update attribute %lu for object %lld",type,_objectId);
+				if (_transaction) _transactionFailed = true;
 				return false;
 			}
 
@@ -1290,6 +1291,7 @@ bool DBObject::setAttribute(CK_ATTRIBUTE_TYPE type, const OSAttribute& attribute
 		if (!_connection->execute(statement))
 		{
 			ERROR_MSG("Failed to insert attribute %lu for object %lld",type,_objectId);
+			if (_transaction) _transactionFailed = true;
 			return false;
 		}
 
@@ -1367,6 +1369,7 @@ bool DBObject::deleteAttribute(CK_ATTRIBUTE_TYPE type)
 		if (!_connection->execute(statement))
 		{
 			ERROR_MSG("Failed to delete attribute %lu for object %lld",type,_objectId);
+			if (_transaction) _transactionFailed = true;
 			return false;
 		}
 
@@ -1421,6 +1424,7 @@ bool DBObject::startTransaction(Access access)
 		ERROR_MSG("Not enough memory to start transaction.");
 		return false;
 	}
+	_transactionFailed = false;
 
 	if (_connection->inTransaction())
 	{
@@ -1452,8 +1456,19 @@ bool DBObject::commitTransaction()
 		return false;
 	}
 
-	if (!_connection->commitTransaction())
+	if (_transactionFailed || !_connection->commitTransaction())
 	{
+		// A statement of this transaction or the commit itself failed: nothing of it
+		// may stay behind, neither in the database nor as a pending transaction
+		ERROR_MSG("Transaction failed, rolling back the changes to object %lld",_objectId);
+		for (std::map<CK_ATTRIBUTE_TYPE,OSAttribute*>::iterator it = _transaction->begin(); it!=_transaction->end(); ++it) {
+			delete it->second;
+			it->second = NULL;
+		}
+		delete _transaction;
+		_transaction = NULL;
+		if (_connection->inTransaction())
+			_connection->rollbackTransaction();
 		return false;
 	}
 
